@@ -769,6 +769,10 @@ def run(ctx):
     r4_local_atomic(ctx)
     r5_temp_invisible(ctx)
     r7_local_clean(ctx)
+    # a failed command leaves no belief behind that a later command acts on: "this chunk is stored" is decided by asking the backend
+    from .c02 import r8_skip_upload_only_on_backend_answer as _sk
+
+    _sk(ctx, rule='C03.R1')
     # a command killed inside the cache write leaves a truncated entry: the next command must discard it (the bytes that
     # reach the decoder passed the digest comparison on every path), otherwise the repository is unusable from this client
     fi = ctx.corpus.func('repository', 'Repository._download_snapshot_threadsafe')
